@@ -293,7 +293,8 @@ def run(rng: Rng, tier: str, index: int) -> RunResult:
         from joserfc.jwt import JWTClaimsRegistry
         current["node"] = validator
         try:
-            seam_ok = int(JWTClaimsRegistry().now) == int(validator.clock.time())
+            # (effective = the library reads *this* clock; how it rounds the reading is what the deliveries below judge)
+            seam_ok = abs(JWTClaimsRegistry().now - validator.clock.time()) <= 1
         except Exception:
             seam_ok = False
         if not seam_ok:
